@@ -5,6 +5,8 @@ p="$1"; tier="$2"; shift 2
 cd /verif
 [ -z "$(git -C /repo status --porcelain)" ] || { echo "/repo not clean"; exit 2; }
 git -C /repo apply "$p" || { echo "patch does not apply"; exit 2; }
+# evidence files are rewritten by every run: keep the clean tree's ones
+rm -rf /tmp/q/evidence_keep; mkdir -p /tmp/q; cp -r evidence /tmp/q/evidence_keep
 mkdir -p /tmp/q
 for c in "$@"; do
   s=$(date +%s)
@@ -13,4 +15,5 @@ for c in "$@"; do
   echo "$c rc=$rc t=$((e-s))s :: $(grep VIOLATION /tmp/q/seed_$c.log | head -3 | tr '\n' ';')"
 done
 git -C /repo checkout -- .
+cp /tmp/q/evidence_keep/*.json evidence/
 [ -z "$(git -C /repo status --porcelain)" ] && echo reverted
